@@ -29,6 +29,7 @@ RULE = (
     ' Also: names that are str subclasses, equal-but-different numbers, None or contain lone surrogates; iterations aborted by an exception from any callback; nodes with 300-2500 children written with to_dotfile.'
     ' Also: positional constructor forms, GC under a long-lived UniqueDotExporter, really overlapping iterations, exports > 8192 lines, non-UTF-8 locale child interpreter, path/list names.'
     ' Also: maxlevels that are not whole numbers and falsy predicate objects, judged by one consistent reading of node and edge statements.'
+    ' Rounds 11-14: tall trunks, round line counts, exotic options, bytes and text-adding names, falsy attr results, infinite maxlevel.'
 )
 ASSUMPTIONS = [
     "declared = what the reference pre-order of C06 yields for the same filter_/stop/maxlevel; expected edges = parent-child pairs with both ends declared, compared as a multiset (edge order is not prescribed)",
